@@ -2,7 +2,7 @@
    STATUS: proved end to end for the affine fragment (C02_objective_affine, C02_optimum_affine: through the whole of
    `compile` the linear objective equals the source objective at every assignment, so optimal points and values
    coincide) and for the arithmetic fragment with abs, min and max (C02_objective_abs: exactly the statement below; C02_optimum_abs:
-   an optimal point of the compiled model is feasible and optimal for the source with the same value - under a
+   an optimal point of the compiled model is, on the used variables, a feasible and optimal point of the source with the same value - under a
    minimised abs or max the linear objective only over-estimates, and the optimum is where the two meet); for models with
    logic nodes the target statement is kept visible and the proved parts are *_partial. *)
 From Coq Require Import QArith Reals List String.
@@ -54,8 +54,9 @@ Theorem C02_optimum_abs :
   forall (m : model) (L : linmodel) (sigma : string -> R), abs_model m -> compile m = inr L ->
     sat_linear L sigma -> (forall tau, sat_linear L tau -> better_eq (m_dir m) (lin_objective L sigma) (lin_objective L tau)) ->
     m_dir m <> DSatisfy ->
-    sat_model m sigma /\ ev sigma (m_obj m) = Some (lin_objective L sigma) /\
-    forall rho v, sat_model m rho -> ev rho (m_obj m) = Some v -> better_eq (m_dir m) (lin_objective L sigma) v.
+    exists sigma', agree_on (unames m) sigma sigma' /\
+      sat_model m sigma' /\ ev sigma' (m_obj m) = Some (lin_objective L sigma) /\
+      forall rho v, sat_model m rho -> ev rho (m_obj m) = Some v -> better_eq (m_dir m) (lin_objective L sigma) v.
 Proof. exact compile_abs_optimum. Qed.
 
 (* ---- proved: for an affine objective the linear objective (coefficients and constant offset) equals the
